@@ -32,7 +32,7 @@ def userordAnchor (S : Schema) (sibs : List DNode) (idx : Nat) (n : DNode) : Opt
           | none => [])
       else some ("value", match prev with | some p => p.val | none => [])
 
-/-- the anchor of a delete: none in the defective variant (F63) -/
+/-- the anchor of a delete: none in the defective variant (F178) -/
 def delAnchor (X : SchemaX) (sibs : List DNode) (idx : Nat) (n : DNode) : Option (String × Bytes) :=
   if X.q.valDiffNoDeleteAnchor then none else userordAnchor X.base sibs idx n
 
@@ -165,7 +165,7 @@ def caseChain (X : SchemaX) (sid : Nat) : List (STree × STree) :=
   go (X.base.nodes.length + 1) sid
 
 /-- `lyd_validate_autodel_case_dflt`: a default node of a non-default case none of whose data is explicit.  The repaired code
-(F66) asks this of every case around the node, the defective one of the innermost case only. -/
+(F188) asks this of every case around the node, the defective one of the innermost case only. -/
 def caseDfltVictim (X : SchemaX) (all : List DNode) (node : DNode) : Bool :=
   let gone := fun (p : STree × STree) =>
     p.2.info.dfltCase != some p.1.info.name && !(all.any fun x => inSids p.1.dataSids x && !x.flags.dflt)
